@@ -15,7 +15,7 @@ use crate::reps::{to_myval, FlatDoc};
 use crate::run::{clear_case, finish, par_shards, set_case, start_watchdog, Ctx, Meta, Report};
 
 /// condition text with token-level damage that often still loads
-fn hostile_condition(rng: &mut Rng, base: &Cond, names: &[String]) -> String {
+pub fn hostile_condition(rng: &mut Rng, base: &Cond, names: &[String]) -> String {
     let mut t = base.text();
     let lits = ["1", "0", "1.5", "int(a)", "flt(b)", "str(c)", "not(a)", "all(I0)", "of(I0, 0)", "of(I0, 99999999999)", "of(I1, 1)", "int(a) == 1", "1 == int(a)", "int(a) == int(b)", "str(a) == str(b)", "flt(a) < 1.5", "(1)", "(int(a))", "I0", "not I0"];
     for _ in 0..1 + rng.below(3) {
@@ -58,7 +58,7 @@ fn hostile_leaf(rng: &mut Rng) -> Y {
 }
 
 /// replace a few leaf values inside the identifiers of a rule value
-fn damage_identifiers(rng: &mut Rng, root: &mut Y) {
+pub fn damage_identifiers(rng: &mut Rng, root: &mut Y) {
     fn leaves<'a>(v: &'a mut Y, out: &mut Vec<&'a mut Y>) {
         match v {
             Y::Mapping(m) => {
@@ -90,7 +90,7 @@ fn damage_identifiers(rng: &mut Rng, root: &mut Y) {
     }
 }
 
-fn hostile_value(rng: &mut Rng, depth: usize) -> DVal {
+pub fn hostile_value(rng: &mut Rng, depth: usize) -> DVal {
     let w = if depth >= 3 { 0 } else { 10 };
     match rng.weighted(&[6, 6, 6, 6, 6, 6, 6, 12, 4, w, w, w, 3]) {
         0 => DVal::Null,
@@ -109,7 +109,7 @@ fn hostile_value(rng: &mut Rng, depth: usize) -> DVal {
     }
 }
 
-fn hostile_doc(rng: &mut Rng, fields: &[String]) -> DVal {
+pub fn hostile_doc(rng: &mut Rng, fields: &[String]) -> DVal {
     let mut o = vec![];
     for f in fields {
         if rng.chance(75) {
@@ -124,7 +124,7 @@ fn hostile_doc(rng: &mut Rng, fields: &[String]) -> DVal {
     DVal::Obj(o)
 }
 
-fn rule_fields(v: &Y, out: &mut Vec<String>) {
+pub fn rule_fields(v: &Y, out: &mut Vec<String>) {
     // every mapping key below the identifiers, with its modifier stripped by the harness
     match v {
         Y::Mapping(m) => {
